@@ -18,7 +18,7 @@ from .. import codec, env, inputs, par, sgzfile, writers
 
 FINISH = dict(
     level='model_checking',
-    rule='sources: geometry in {regular 5x6 / 2x2 / 9x4, irregular grids with 1..5 holes (corner, interior, staggered), 2-D with no numbering / single '
+    rule='sources: geometry in {regular 5x6 / 2x2 / 9x4, regular crossline-sorted 4x7 / 6x3, irregular grids with 1..5 holes (corner, interior, staggered), 2-D with no numbering / single '
          'inline / single crossline} x format in {IEEE, IBM} x header content (constant / ramp / mixed backgrounds, extremes) x detection mode x '
          '(rate, blockshape) x route in {API, CLI}; non-trivial = distinct (geometry, format, background, mode, setting, route)',
     assumptions=['the delay-recording-time is the same in every trace (it defines the sample axis and is regenerated)',
@@ -27,6 +27,7 @@ FINISH = dict(
 
 GEOMS = {
     'reg5x6': ('reg', (5, 6), ()), 'reg2x2': ('reg', (2, 2), ()), 'reg9x4': ('reg', (9, 4), ()),
+    'regx4x7': ('regx', (4, 7), ()), 'regx6x3': ('regx', (6, 3), ()),       # regular, stored crossline-sorted
     'irr-corner': ('irr', (4, 5), ((0, 0),)), 'irr-last': ('irr', (3, 4), ((2, 3),)), 'irr-mid2': ('irr', (5, 5), ((1, 2), (3, 1))),
     'irr-stagger': ('irr', (6, 7), ((0, 3), (1, 1), (2, 5), (4, 0), (5, 6))), 'irr-rows': ('irr', (4, 6), ((0, 2), (1, 3), (2, 2), (3, 4))),
     '2d0': ('2d0', (1, 9), ()), '2dil': ('2dil', (1, 21), ()), '2dxl': ('2dxl', (7, 1), ()),
@@ -36,6 +37,8 @@ GEOMS = {
 def source(case, d, tag, seed):
     kind, (ni, nx), holes = GEOMS[case['geom']]
     pos = [(i, x) for i in range(ni) for x in range(nx) if (i, x) not in holes]
+    if kind == 'regx':
+        pos = [(i, x) for x in range(nx) for i in range(ni)]
     n = len(pos)
     nz = case['nz']
     keys = sgzfile.trace_keys()
@@ -47,7 +50,7 @@ def source(case, d, tag, seed):
             if bg == 'mix':
                 bg = ('zero', 'const', 'ramp')[(k // 2) % 3]
             h[k] = 0 if bg == 'zero' else ((k % 100) + 1 if bg == 'const' else 7 * k + t)
-        if kind in ('reg', 'irr'):
+        if kind in ('reg', 'irr', 'regx'):
             h[189], h[193] = 10 + 2 * i, 5 + 3 * x
         elif kind == '2d0':
             h[189], h[193] = 0, 0
@@ -117,15 +120,19 @@ def _worker(item):
             out['pre'] = all(len(set(v)) == 1 for v in vals.values()) and len({(int(first[k]), int(last[k])) for k in var}) == len(var)
             out['samples'] = bool(len(a.samples) == len(b.samples) and np.allclose(a.samples, b.samples, rtol=0, atol=1e-9) and
                                   np.allclose(b.samples, sgz_z, rtol=0, atol=1e-9))
-            ga = (None if a.unstructured else (np.asarray(a.ilines).tolist(), np.asarray(a.xlines).tolist(), int(a.sorting), np.asarray(a.offsets).tolist()))
-            gb = (None if b.unstructured else (np.asarray(b.ilines).tolist(), np.asarray(b.xlines).tolist(), int(b.sorting), np.asarray(b.offsets).tolist()))
+            # a regular SGZ keeps the cube, not the source's file order: a crossline-sorted source comes back inline-sorted, every trace
+            # (samples and header) identified by its position in the cube; perm[i] = the source ordinal of the cube's i-th position
+            perm = sorted(range(a.tracecount), key=lambda t: pos[t]) if kind == 'regx' else list(range(a.tracecount))
+            srt = (lambda f: 0) if kind == 'regx' else (lambda f: int(f.sorting))
+            ga = (None if a.unstructured else (np.asarray(a.ilines).tolist(), np.asarray(a.xlines).tolist(), srt(a), np.asarray(a.offsets).tolist()))
+            gb = (None if b.unstructured else (np.asarray(b.ilines).tolist(), np.asarray(b.xlines).tolist(), srt(b), np.asarray(b.offsets).tolist()))
             out['geometry'] = (ga == gb, str(ga)[:80], str(gb)[:80])
             out['file_header'] = src_fh == exp_fh
             out['bin'] = dict(a.bin) == dict(b.bin)
             n = min(a.tracecount, b.tracecount)
             bad = []
             for i in range(n):
-                ha, hb = a.header[i], b.header[i]
+                ha, hb = a.header[perm[i]], b.header[i]
                 diff = [k for k in keys if int(ha[k]) != int(hb[k])]
                 if diff:
                     bad.append((i, diff[:4]))
@@ -141,8 +148,10 @@ def _worker(item):
                 out['samples_vs_sgz'] = bool(got.shape == ref.shape and np.all(np.abs(got.astype(np.float64) - ref) <= tol))
             # trace order against the SOURCE, exactly: the SGZ decode of ordinal i is the ZFP image of source trace i at its place (edge-extended
             # cube / section, zero-filled grid for an irregular survey) and the exported trace i is that decode (checked above)
-            src_tr = np.stack([np.asarray(a.trace[i], dtype=np.float32) for i in range(a.tracecount)])
+            src_tr = np.stack([np.asarray(a.trace[perm[i]], dtype=np.float32) for i in range(a.tracecount)])
             gk, (gni, gnx), _ = GEOMS[c['geom']]
+            if gk == 'regx':
+                gk, pos = 'reg', sorted(pos)
             rate = Fr(c['rate'])
             if gk in ('reg', 'irr'):
                 grid = np.zeros((gni, gnx, src_tr.shape[1]), dtype=np.float32)
